@@ -372,6 +372,7 @@ type GenOpts struct {
 	Positive   bool    // only positive work
 	Deep       bool    // bias towards long competing branches (deep reorganisations)
 	Extreme    bool    // extreme field values (C03)
+	Lattice    bool    // difficulty bits whose work is about 2^k for k around 31/32/63/64/127/128: cumulative work crosses the widths of machine integers
 }
 
 
@@ -421,6 +422,23 @@ func LongReorgHistories(thorough bool) []*History {
 	return out
 }
 
+// latticeBits: compact encodings whose work floor(2^256/(target+1)) is 2^k - 1 (target = 2^(256-k)), for the k at
+// which a sum of works crosses the width of a machine integer.
+var latticeBits = func() []uint32 {
+	var out []uint32
+	for _, k := range []int{30, 31, 32, 33, 61, 62, 63, 64, 65, 126, 127, 128, 129} {
+		t := 256 - k // target = 2^t = m * 256^(e-3)
+		e3 := (t - 16) / 8
+		mexp := t - 8*e3
+		if mexp > 22 {
+			e3++
+			mexp -= 8
+		}
+		out = append(out, uint32(e3+3)<<24|uint32(1)<<uint(mexp))
+	}
+	return out
+}()
+
 // GenHistory draws a random history.
 func GenHistory(r *rand.Rand, o GenOpts) *History {
 	h := &History{}
@@ -462,6 +480,9 @@ func GenHistory(r *rand.Rand, o GenOpts) *History {
 			bits = bitsW8
 		default:
 			bits = bitsMain
+		}
+		if o.Lattice && r.Intn(10) < 7 {
+			bits = latticeBits[r.Intn(len(latticeBits))]
 		}
 		s := Sub{ID: id, Prev: prev, Bits: bits, Ver: 1, Merkle: id + 100, TS: uint32(1600000000 + k), Nonce: uint32(k)}
 		if o.Extreme {
